@@ -13,9 +13,11 @@ CONSTANTS InjAssignees, InjEst, InjProc, InjSenders, DynDepth, RowMode
 \* (a trait without the account that carries it is not a row of its own: CurOf drops it)
 Wf(r) == (r.mevH => r.home) /\ (r.mevT => r.acct # 0)
 \* "canon" also skips the fee level of a validator whose metrics record is missing (it is outside the scored set either way)
+\* (the home chain multiplicator is varied by the dyn / retry configurations and by the generators)
 McRows == CASE RowMode = "canon" -> {r \in Row : Wf(r) /\ r.acct <= 1 /\ (~r.home => (r.fee = BaseFee /\ r.perf /\ ~r.mevT))
-                                                 /\ (~r.perf => r.fee \in {0, BaseFee})}
-            [] RowMode = "full"  -> {r \in Row : Wf(r) /\ r.acct <= 1 /\ (~r.home => (r.fee = BaseFee /\ r.perf /\ ~r.mevT))}
+                                                 /\ (~r.perf => r.fee \in {0, BaseFee}) /\ r.feeH = BaseFee}
+            [] RowMode = "full"  -> {r \in Row : Wf(r) /\ r.acct <= 1 /\ (~r.home => (r.fee = BaseFee /\ r.perf /\ ~r.mevT))
+                                                 /\ r.feeH = BaseFee}
             [] OTHER             -> {r \in Row : Wf(r)}
 NextRows == \E v \in Vals, r \in McRows : SetRow(v, r)
 
@@ -45,12 +47,26 @@ NextDyn ==
   \/ Resnap
   \/ \E mv \in BOOLEAN, t \in Times : Assign("t", 1, mv, t)
   \/ Assign("h", 1, TRUE, 0)
-  \/ \E k \in {"slc", "valset"}, ne \in BOOLEAN : Put(k, IF k = "slc" THEN 1 ELSE 0, 1, ne)
+  \/ \E k \in {"slc", "valset"}, ne \in BOOLEAN : Put("t", k, IF k = "slc" THEN 1 ELSE 0, 1, ne)
   \/ \E v \in {1, 2}, id \in 1..(nextId - 1), g \in Gases : Estimate(v, id, g)
   \/ EndBlock
   \/ \E id \in 1..(nextId - 1) : Deliver(id) \/ Fail(id)
 ConstrDyn == Cardinality(queue) <= MaxQ /\ Cardinality(queueH) <= MaxQ /\ TLCGet("level") <= DynDepth
 ConstrQ == Cardinality(queue) <= MaxQ
+
+\* retry after an attested relay failure, and fee-paying messages on both chains elected in one end block
+RetryRows == {BaseRow, [BaseRow EXCEPT !.mevT = TRUE], [BaseRow EXCEPT !.mevH = TRUE, !.feeH = HiFee]}
+NextRetry ==
+  \/ \E r1 \in RetryRows, r2 \in {BaseRow, [BaseRow EXCEPT !.mevT = TRUE]} : Setup([v \in Vals |-> IF v = 1 THEN r1 ELSE IF v = 2 THEN r2 ELSE BaseRow])
+  \/ Rereg(1, 1, FALSE, FALSE) \/ Rereg(2, 1, FALSE, TRUE)
+  \/ Resnap
+  \/ \E c \in Chains : Assign(c, 1, TRUE, 0)
+  \/ \E v \in {1, 2}, id \in 1..(nextId - 1) : AttestErr(v, id)
+  \/ EndBlockAtt(0)
+  \/ SetFee(1, "h", HiFee)
+  \/ \E c \in Chains : Put(c, "slc", 1, 1, TRUE)
+  \/ \E v \in {1, 2}, id \in 1..(nextId - 1) : Estimate(v, id, InjGas)
+  \/ EndBlock
 \* fees are checked against the fee table, which Setup may only change before the first message
 FeesAtElectionDyn == FeesAtElection
 =============================================================================
